@@ -2,6 +2,7 @@ package props
 
 import (
 	"fmt"
+	"regexp"
 	"strings"
 
 	"github.com/compose-spec/compose-go/v2/types"
@@ -235,6 +236,9 @@ func c11scn(facts []c11fact, doc, origin string) *Scn {
 		// the file declares a name that is neither normalised nor the effective one (the caller imposes "proj"):
 		// implicit resource names are built from the effective project name
 		files["compose.yaml"] = "name: \"Declared.Name\"\n" + doc
+	case "main+x-names", "main+dotted-names":
+		// services and resources carry names of the other shapes users may choose (x- prefix, dots)
+		files["compose.yaml"] = c11rename(doc, origin)
 	case "main+refine":
 		// a later file touches the same attributes, but other entries of them
 		files["compose.yaml"] = doc
@@ -291,7 +295,7 @@ func (c11) Run(c *core.Ctx) {
 			add(m)
 		}
 	}
-	for _, origin := range []string{"main", "override", "include", "main+declared-name", "main+refine", "extends", "extends+refine", "extends-same-file", "extends-same-file+refine"} {
+	for _, origin := range []string{"main", "override", "include", "main+declared-name", "main+x-names", "main+dotted-names", "main+refine", "extends", "extends+refine", "extends-same-file", "extends-same-file+refine"} {
 		origin := origin
 		var ref *types.Project
 		getRef := func() (*types.Project, error) {
@@ -373,7 +377,7 @@ func (c11) Run(c *core.Ctx) {
 				if err != nil {
 					return core.Outcome{Class: "err", Sample: sample, Viol: &core.Violation{Key: "nondefault-rejected:" + f.name, Msg: id + ": " + err.Error()}}
 				}
-				if msg := f.nonDefOK(p, fmt.Sprintf("f%02d", i)); msg != "" {
+				if msg := f.nonDefOK(p, c11rename(fmt.Sprintf("f%02d", i), origin)); msg != "" {
 					return core.Outcome{Class: "ow", Sample: sample, Viol: &core.Violation{Key: "explicit-value-overwritten:" + f.name, Msg: id + ": " + msg}}
 				}
 				return core.Outcome{Class: id, Sample: sample}
@@ -421,6 +425,30 @@ func (c11) Run(c *core.Ctx) {
 			return core.Outcome{Class: fmt.Sprintf("defaultnet/%v/%v", used, has), Sample: sb.String()}
 		})
 	}
+}
+
+var c11tokRe = regexp.MustCompile(`[A-Za-z0-9]+`)
+var c11svcRe = regexp.MustCompile(`^f\d\d$`)
+var c11resNames = map[string]bool{"named": true, "vol": true, "sec": true, "cfg": true, "evol": true, "enet": true, "esec": true, "ecfg": true, "evol2": true, "enet2": true}
+
+// c11rename gives the services f00.. and the resources of a document names of another legal shape.
+func c11rename(doc, origin string) string {
+	if origin != "main+x-names" && origin != "main+dotted-names" {
+		return doc
+	}
+	return c11tokRe.ReplaceAllStringFunc(doc, func(t string) string {
+		switch {
+		case c11svcRe.MatchString(t) && origin == "main+x-names":
+			return "x-" + t
+		case c11svcRe.MatchString(t):
+			return "f." + t[1:]
+		case c11resNames[t] && origin == "main+x-names":
+			return "x-" + t
+		case c11resNames[t]:
+			return t + ".r"
+		}
+		return t
+	})
 }
 
 func popcount(x uint32) int {
